@@ -76,6 +76,7 @@ func checkEAN(t TB, c EANCase) bool {
 	if merr != nil {
 		failf(t, "C06", "ean", c, "%v", merr)
 	}
+	colourVariant(t, "C06", "ean", c, EncSpec{Fam: "ean", Content: c.Code}, [][]bool{m})
 	wantW, kind := 67, "EAN 8"
 	if len(want) == 13 {
 		wantW, kind = 95, "EAN 13"
